@@ -27,7 +27,7 @@ def rule_I1(ctx) -> None:
     sn = cas.func("sanitize_name")
     ctx.analysed("sanitize_name", "safe_snake_case")
     p0 = sn.args.args[0].arg
-    paths = Interp(cas).run(sn)
+    paths = Interp(cas, fork_ifexp=True).run(sn)
     ctx.count(len(paths))
     kw_branch = ident_branch = passthrough = False
     for p in paths:
@@ -36,7 +36,8 @@ def rule_I1(ctx) -> None:
         id_atom = ("call", ("a", N(p0), "isidentifier"), (), ())
         if p.valuation.get(kw_atom) is True and v is not None and v != N(p0) and show(v).replace(" ", "") in (f'f"{{{p0}}}_"', f"({p0}+'_')"):
             kw_branch = True
-        if p.valuation.get(kw_atom) is False and p.valuation.get(id_atom) is False and v is not None and v != N(p0):
+        # every keyword is spelled like an identifier: the non-identifier branch may come before or after the keyword test
+        if p.valuation.get(kw_atom) is not True and p.valuation.get(id_atom) is False and v is not None and v != N(p0):
             ident_branch = True
         if p.valuation.get(kw_atom) is False and p.valuation.get(id_atom) is True and v == N(p0):
             passthrough = True
@@ -54,19 +55,26 @@ def rule_I1(ctx) -> None:
     else:
         ctx.refuted("I1", "safe_snake_case:guarded", "unguarded", cas.loc(ssc), "safe_snake_case does not return sanitize_name(...)")
     n = 0
+    # what each pythonize_* function returns: a call of the guard, of a sibling (judged by the sibling), or something else
+    returns = {}
+    for q, fn in nam.functions():
+        if q.startswith("pythonize_"):
+            ps = Interp(nam).run(fn)
+            ctx.count(len(ps))
+            returns[q] = [p.value for p in ps if p.outcome == "return" and p.value is not None]
+    guarded = set()
+    for _ in range(len(returns) + 1):
+        for q, vals in returns.items():
+            if vals and all(v[0] == "call" and (dotted(v[1]).split(".")[-1] in ("sanitize_name", "safe_snake_case") or dotted(v[1]) in guarded) for v in vals):
+                guarded.add(q)
     for q, fn in nam.functions():
         if not q.startswith("pythonize_"):
             continue
         n += 1
         ctx.analysed(q)
-        paths = Interp(nam).run(fn)
-        ctx.count(len(paths))
         bad = []
-        for p in paths:
-            if p.outcome != "return" or p.value is None:
-                continue
-            v = p.value
-            if not (v[0] == "call" and dotted(v[1]).split(".")[-1] in ("sanitize_name", "safe_snake_case")):
+        for v in returns[q]:
+            if not (v[0] == "call" and (dotted(v[1]).split(".")[-1] in ("sanitize_name", "safe_snake_case") or dotted(v[1]) in guarded)):
                 bad.append(show(v))
         if bad:
             ctx.refuted("I1", f"{q}:guarded", "unguarded", nam.loc(fn),
